@@ -119,6 +119,20 @@ def run(ctx):
               msg=f"StateTriggerDecorator._cycle: hold started by event 'first'; a second true evaluation 'second' arrives during the hold; at expiry the run is dispatched with "
               f"{[repr(d) for d in (r['dispatch'] if r else [])]} (specified: the arguments of 'first')", key="new hold expiry args", node=program.func(CYC), rel="decorators/state.py")
 
+    ctx.rule("R05.7", "while a hold is pending every wait is armed for exactly the time that is left of it (state_hold minus the time already elapsed)", floor=2)
+    r = _cycle_run(program, [("note", A1, False, True, True), ("note", A2, False, False, True), ("note", A2, False, True, True), ("timeout",)], te=None, fe=None, S=S0, H=None,
+                   times=[100.0, 101.0, 103.5, 105.0])
+    waits = r["timeouts"] if r else None
+    want = ["no deadline", 5.0, 4.0, 1.5]
+    ctx.check(waits is not None and waits[:4] == want, "R05.7", CYC, "new: waits armed for the remaining hold time",
+              msg=f"StateTriggerDecorator._cycle: hold of 5.0 s started at t=100.0, notifications at 101.0 and 103.5: the waits are armed with {waits}, specified {want} "
+              f"(first wait has no deadline; then 5.0 - elapsed): a notification during the hold must neither stretch nor shorten it", key="new remaining hold time", node=program.func(CYC), rel="decorators/state.py")
+    r = _cycle_run(program, [("note", A1, False, True, True), ("timeout",), ("note", A2, False, False, True)], te=None, fe=None, S=S0, H=None, times=[100.0, 105.0, 106.0])
+    waits = r["timeouts"] if r else None
+    ctx.check(waits is not None and waits[:3] == ["no deadline", 5.0, "no deadline"], "R05.7", CYC, "new: no deadline once the hold has been released",
+              msg=f"StateTriggerDecorator._cycle: after the held run was released the waits are armed with {waits}, specified ['no deadline', 5.0, 'no deadline']", key="new deadline after release",
+              node=program.func(CYC), rel="decorators/state.py")
+
     ctx.rule("R05.5", "start-up: a run or hold is started only with state_check_now and a true expression", floor=4)
     for check_now, expr_true, S in itertools.product((True, False, None), (True, False), (None, S0)):
         r = _cycle_run(program, [("stop",)], te=None, fe=None, S=S, H=None, times=[50.0], check_now=check_now, expr_true=expr_true, from_start=True)
@@ -142,7 +156,7 @@ def run(ctx):
 LEGACY_T0 = __import__("datetime").datetime(2024, 1, 1, 12, 0, 0)
 
 
-def legacy_run(program, uid, script, S, H, monos):
+def legacy_run(program, uid, script, S, H, monos, want_waits=False):
     """One of the two legacy loops driven by a scripted queue.
     script items: ('note', any-change matched, watched changed, expression value) | ('timeout',); monos[i] is the monotonic clock while item i is processed.
     Result: set of (how the scenario ended, ((phase, arguments of the run / returned dictionary), ...))."""
@@ -185,7 +199,12 @@ def legacy_run(program, uid, script, S, H, monos):
         return [(cfg.hset("$runs", ListV(lst.items + (ListV((Const(phase(cfg)), a[1] if len(a) > 1 else NONE), "tuple"),))), Const(True))]
 
     expr = lambda i, n, a, k, c, o: [(c, Const(cur(c)[3]))]  # noqa: E731
-    summ = {"self.notify_q.get": qget, "notify_q.get": qget, "asyncio.wait_for": lambda i, n, a, k, c, o: deliver(c, o, True),
+    def wait_for(i, n, a, k, c, o):
+        tmo = k.get("timeout") if "timeout" in k else (a[1] if len(a) > 1 else Const("?"))
+        c = c.hset("$timeouts", ListV(c.heap.get("$timeouts", ListV(())).items + (tmo,)))
+        return deliver(c, o, True)
+
+    summ = {"self.notify_q.get": qget, "notify_q.get": qget, "asyncio.wait_for": wait_for,
             "dt_now": lambda i, n, a, k, c, o: [(c, Const(LEGACY_T0 + dtm.timedelta(seconds=mono_now(c))))],
             "time.monotonic": lambda i, n, a, k, c, o: [(c, Const(mono_now(c)))],
             "ident_any_values_changed": lambda i, n, a, k, c, o: [(c, Const(cur(c)[1]))], "ident_values_changed": lambda i, n, a, k, c, o: [(c, Const(cur(c)[2]))],
@@ -211,6 +230,7 @@ def legacy_run(program, uid, script, S, H, monos):
                 "self.state_trigger_kwargs": DictV(()), "self.name": Const("file.x.f")}
     out = run_flow(program, uid, pol, args=args, heap=heap)
     res = set()
+    waits = set()
     for k, c, d in exits(out):
         runs = [(r.items[0].v, r.items[1]) for r in c.heap.get("$runs", ListV(())).items]
         if is_wait and k == "return":
@@ -220,6 +240,9 @@ def legacy_run(program, uid, script, S, H, monos):
             val = v.get(Const("value")) if isinstance(v, DictV) else None
             shown.append((ph, val.v if isinstance(val, Const) else repr(v)))
         res.add(("return" if k == "return" else d.replace("raise ", ""), tuple(shown)))
+        waits.add(tuple(round(t.v, 6) if isinstance(t, Const) and isinstance(t.v, (int, float)) else repr(t) for t in c.heap.get("$timeouts", ListV(())).items))
+    if want_waits:
+        return res, waits
     return res
 
 
@@ -249,6 +272,12 @@ def legacy_hold_rules(ctx, program, rid, uids=("trigger.py::TrigInfo.trigger_wat
             # wait_until returns at the first run; trigger_watch keeps looping
             exp = tuple(want[:1]) if is_wait else tuple(want)
             ok = runs == {exp}
+            if S is not None and script[-1] == ("timeout",) and len(script) == 3 and want:
+                _, waits = legacy_run(program, uid, script, S, H, monos, want_waits=True)
+                exp_w = (round(S - (monos[0] - monos[0]), 6), round(S - (monos[1] - monos[0]), 6))
+                ctx.check(waits == {exp_w}, rid, uid, f"{'wait_until' if is_wait else 'trigger_watch'}: waits armed for the remaining hold time ({label.split(':')[1].strip()[:40]})",
+                          msg=f"{uid} on the history {script} (state_hold={S}, clock {monos}): the timed waits are armed with {sorted(waits)}, specified {[exp_w]} (state_hold minus the time elapsed since "
+                          f"the hold started)", key=f"legacy waits {label}", node=program.func(uid), rel="trigger.py")
             ctx.check(ok, rid, uid, f"{'wait_until' if is_wait else 'trigger_watch'}: {label}",
                       msg=f"{uid} on the history {script} (state_hold={S}, state_hold_false={H}, clock {monos}): runs {sorted(runs)}, specified {[exp]} "
                       f"[(n, v): released after the n-th history item with the arguments of the event whose value is v]", key=f"legacy scenario {label}", node=program.func(uid), rel="trigger.py")
@@ -264,6 +293,11 @@ def _cycle_run(program, script, te, fe, S, H, times, check_now=False, expr_true=
         if isinstance(par, ast.Call) and call_name(par) == "asyncio.wait_for":
             return [(cfg, Sym(("coroutine", "notify_q.get")))]  # the awaited object; asyncio.wait_for consumes the script
         p = phase(cfg)
+        if call_name(node) == "asyncio.wait_for":
+            tmo = kwargs.get("timeout") if kwargs and "timeout" in kwargs else (args[1] if len(args) > 1 else Const("?"))
+            cfg = cfg.hset("$timeouts", ListV(cfg.heap.get("$timeouts", ListV(())).items + (tmo,)))
+        else:
+            cfg = cfg.hset("$timeouts", ListV(cfg.heap.get("$timeouts", ListV(())).items + (Const("no deadline"),)))
         if p >= len(script) or script[p][0] == "stop":
             return [(cfg.hset("dm.status", Sym(("clsattr", "DecoratorManagerStatus", "STOPPED"))).hset("$phase", Const(p + 1)), ListV([Const("state"), ListV([DictV(()), DictV(())])], "tuple"))]
         item = script[p]
@@ -335,4 +369,5 @@ def _cycle_run(program, script, te, fe, S, H, times, check_now=False, expr_true=
     c = ends[0]
     te2, fe2 = c.heap.get("self.true_entered_at"), c.heap.get("self.false_entered_at")
     return {"dispatch": list(c.heap.get("$dispatched", ListV(())).items), "te": te2.v if isinstance(te2, Const) else repr(te2), "fe": fe2.v if isinstance(fe2, Const) else repr(fe2),
-            "args": c.heap.get("self.last_func_args")}
+            "args": c.heap.get("self.last_func_args"),
+            "timeouts": [t.v if isinstance(t, Const) else repr(t) for t in c.heap.get("$timeouts", ListV(())).items]}
